@@ -71,7 +71,7 @@ type obs struct {
 	Unb  string     `json:"unb"`
 	Flat [][]string `json:"flat"` // one row per op (row 0: state after setup)
 	Msgs []string   `json:"msgs,omitempty"`
-	Ord  [][]int    `json:"ord"` // per epoch op: order (d,v flattened as d*nvalAll+v) in which accounts were refreshed
+	Ord  [][]int    `json:"ord"` // per epoch / slash op: store order of the intermediary accounts (d*nval+v)
 	Inv  []int      `json:"inv"` // per op: 1 if TotalSuperfluidDelegationInvariant reports broken
 }
 
@@ -602,6 +602,27 @@ func (d *drv) step(o op) (int, uint64) {
 	case "forceunlock":
 		err = apph.Atomic(d.ctx, func(ctx sdk.Context) error {
 			_, e := lkms.ForceUnlock(ctx, &lockuptypes.MsgForceUnlock{Owner: d.owner(o.O).String(), ID: o.ID})
+			return e
+		})
+	case "slash":
+		// x/staking Slash of validator o.V by the fraction o.Amt (a Dec raw) at the current height; the superfluid hook
+		// BeforeValidatorSlashed slashes the locks behind the validator's intermediary accounts (slash.go)
+		ord := []int{}
+		for _, a := range app.SuperfluidKeeper.GetAllIntermediaryAccounts(d.ctx) {
+			ord = append(ord, d.accIndex(a))
+		}
+		d.ord = append(d.ord, ord)
+		err = apph.Atomic(d.ctx, func(ctx sdk.Context) error {
+			val, e := app.StakingKeeper.GetValidator(ctx, d.vals[o.V])
+			if e != nil {
+				return e
+			}
+			consAddr, e := val.GetConsAddr()
+			if e != nil {
+				return e
+			}
+			power := val.ConsensusPower(app.StakingKeeper.PowerReduction(ctx))
+			_, e = app.StakingKeeper.Slash(ctx, consAddr, ctx.BlockHeight(), power, osmomath.NewDecFromBigIntWithPrec(bi(o.Amt).BigInt(), 18))
 			return e
 		})
 	case "withdraw":
